@@ -1,4 +1,5 @@
 import Comdex.Lemmas.AmmMatchExact
+import Comdex.Lemmas.AmmMatchDust
 import Comdex.Lemmas.AmmFindPriceBook
 import Comdex.Lemmas.AmmPool
 import Comdex.Lemmas.AmmKeeper
@@ -415,6 +416,141 @@ example : roundDust 300000000000000000 [7, 5] [12] = 2 ∧ sumInt [7, 5] = sumIn
 example : lossless 3 [{ d2s1 with amount := 30000, opn := 30000, offer := 30000 }, { d2s2 with amount := 30000, opn := 30000, offer := 30000 }]
     31000 100000000000000 = true := by decide
 
+
+/-! ## the dust clause on every result of the engine (composed over all ticks, groups and rounds)
+
+`pre = (newBook os).orders`, `post = b'.orders`: the orders of the book before and after the call, in book order; `buyPaid`,
+`sellReceived`, `buyReceived`, `sellPaid`, `fillCount`, `baseLost = buyReceived − sellPaid` are the sums the driver computes on
+the REAL result (`Model/AmmMatch.lean`, `Model/AmmDust.lean`); `priceLo` / `priceHi` = lowest sell / highest buy limit price. -/
+
+theorem dust_lt_fills_of_le (q n : Int) (hn : 0 ≤ n) (h : q * Dec.P ≤ n * (Dec.P - 1)) : q < max n 1 := by
+  have hP := P_pos
+  have h3 : n * (Dec.P - 1) = n * Dec.P - n := by ring
+  by_cases hn1 : 1 ≤ n
+  · rw [Int.max_eq_left hn1]
+    by_contra hge
+    have h2 : n * Dec.P ≤ q * Dec.P := Int.mul_le_mul_of_nonneg_right (by omega) (by omega)
+    omega
+  · have h0 : n = 0 := by omega
+    subst h0
+    by_contra hge
+    have h2 : 1 * Dec.P ≤ q * Dec.P := Int.mul_le_mul_of_nonneg_right (by omega) (by omega)
+    omega
+
+/-- what `monQuoteDustAt … = true` says, spelled out -/
+theorem monQuoteDustAt_iff (pre post : List Order) (q lo hi : Int) :
+    monQuoteDustAt pre post q lo hi = true ↔
+      (q = buyPaid pre post - sellReceived pre post ∧ 0 ≤ q ∧ 0 ≤ baseLost pre post ∧ 0 ≤ fillCount pre post ∧
+       lo * baseLost pre post ≤ q * Dec.P ∧ q * Dec.P ≤ hi * baseLost pre post + fillCount pre post * (Dec.P - 1)) := by
+  unfold monQuoteDustAt
+  simp only [Bool.and_eq_true, beq_iff_eq, decide_eq_true_eq]
+  constructor
+  · rintro ⟨⟨⟨⟨⟨a, b⟩, c⟩, d⟩, e⟩, f⟩; exact ⟨a, b, c, d, e, f⟩
+  · rintro ⟨a, b, c, d, e, f⟩; exact ⟨⟨⟨⟨⟨a, b⟩, c⟩, d⟩, e⟩, f⟩
+
+/-- **quote_dust_bounds for every result of `OrderBook.Match`** (single-price step at the last price + the two-sided loop,
+ticks touched several times, any batch / priority mix).  The returned `quoteCoinDiff` is exactly what the buyers paid minus
+what the sellers received; it is `≥ 0`; the buyers never receive less base coin than the sellers pay (`0 ≤ L`); and
+`lo·L ≤ quoteCoinDiff·10¹⁸ ≤ hi·L + #fills·(10¹⁸ − 1)`: the dust is the value of the base coin the sell side failed to deliver
+(defect D2; priced between the lowest sell and the highest buy limit of the book) plus LESS THAN ONE quote unit per individual
+fill.  Where nothing is lost (`matchLossless`, decidable from the input; the buy side never loses) this is the property's clause
+literally: `0 ≤ dust < #fills` (`dust = 0` without fills).  Hypotheses: well-formed orders with distinct ids, positive last
+price — nothing else.  The first conjunct is literally what the driver evaluates on every REAL `Match` result (monitor
+`quote_dust`). -/
+theorem quote_dust_bounds_match (os : List Order) (hw : ∀ o ∈ os, Wf o) (hids : (os.map (·.id)).Nodup)
+    (lp : Int) (hlp : 0 < lp) (b' : Book) (mp q : Int) (h : matchBook (newBook os) lp = .ok b' mp q) :
+    monQuoteDustAt (newBook os).orders b'.orders q (priceLo (newBook os).orders) (priceHi (newBook os).orders) = true ∧
+    (matchLossless (newBook os) lp = true →
+      baseLost (newBook os).orders b'.orders = 0 ∧ monDustBelowFills (newBook os).orders b'.orders q = true) := by
+  have hb := newBook_ok os hw
+  have hn := newBook_ids os hids
+  have hm := matchBook_monDust (newBook os) lp hlp hb hn (newBook_nonempty os) b' mp q h
+  refine ⟨hm, ?_⟩
+  obtain ⟨_, m2, _, m4, _, m6⟩ := (monQuoteDustAt_iff _ _ _ _ _).mp hm
+  intro hl
+  have hex := (matchBook_exact (newBook os) lp hlp hb hn b' mp q h).2.mpr hl
+  rcases matchBook_ok (newBook os) lp hlp hb with h0 | ⟨b2, mp2, q2, h2, hr⟩
+  · rw [h0] at h; cases h
+  · rw [h2] at h; cases h
+    obtain ⟨_, _, s2, s3⟩ := book_sums (newBook os) b' hb hr
+    have hL : baseLost (newBook os).orders b'.orders = 0 := by
+      unfold baseLost; rw [s2, s3]; omega
+    refine ⟨hL, ?_⟩
+    rw [hL] at m6
+    simp only [Int.mul_zero, Int.zero_add] at m6
+    unfold monDustBelowFills
+    simp only [Bool.and_eq_true, decide_eq_true_eq]
+    exact ⟨m2, dust_lt_fills_of_le q _ m4 m6⟩
+
+/-- the same for `MatchAtSinglePrice` (a pair's first batch), exact in the price: `p·L ≤ quoteCoinDiff·10¹⁸ ≤ p·L + #fills·(10¹⁸−1)` -/
+theorem quote_dust_bounds_single (os : List Order) (hw : ∀ o ∈ os, Wf o) (hnd : os.Nodup) (p : Int) (hp : 0 < p)
+    (b' : Book) (q : Int) (h : matchAtSinglePrice (newBook os) p = .ok b' q) :
+    monQuoteDustAt (newBook os).orders b'.orders q p p = true ∧
+    (∀ x, findMatchableAmount (newBook os) p = some x → ticksLossless (newBook os).sells x p = true →
+      baseLost (newBook os).orders b'.orders = 0 ∧ monDustBelowFills (newBook os).orders b'.orders q = true) := by
+  have hb := newBook_ok os hw
+  have hn := newBook_nodup os hnd
+  have hm := matchAtSinglePrice_monDust (newBook os) p hp hb hn b' q h
+  refine ⟨hm, ?_⟩
+  obtain ⟨_, m2, _, m4, _, m6⟩ := (monQuoteDustAt_iff _ _ _ _ _).mp hm
+  intro x hx hl
+  obtain ⟨x', hx', e1, _, e3⟩ := matchAtSinglePrice_exact (newBook os) p hp hb hn b' q h
+  rw [hx] at hx'; cases hx'
+  have hex := e3.mpr hl
+  rcases matchAtSinglePrice_ok (newBook os) p hp hb with h0 | ⟨b2, q2, h2, hr⟩
+  · rw [h0] at h; cases h
+  · rw [h2] at h; cases h
+    obtain ⟨_, _, s2, s3⟩ := book_sums (newBook os) b' hb hr
+    have hL : baseLost (newBook os).orders b'.orders = 0 := by
+      unfold baseLost; rw [s2, s3]; omega
+    refine ⟨hL, ?_⟩
+    rw [hL] at m6
+    simp only [Int.mul_zero, Int.zero_add] at m6
+    unfold monDustBelowFills
+    simp only [Bool.and_eq_true, decide_eq_true_eq]
+    exact ⟨m2, dust_lt_fills_of_le q _ m4 m6⟩
+
+/-! ### the clause as written (`dust < #fills` unconditionally) is FALSE of the code: a consequence of defect D2
+
+sells 1000 @ 0.1 and 5 × 10 @ 0.1 (one batch), a buy of 1045 @ 0.2, last price 0.09.  The loop trades 1045 at 0.1: the buyer is
+filled for 1045 and pays ⌈104.5⌉ = 105.  The sell tick gets 1045 of its 1050 to distribute: pro-rata 995 + 5×9, the remainder 5
+tops the big seller up to 1000; the five shares of 9 are worth ⌊0.9⌋ = 0, so the function re-runs on the big seller alone with
+the same 1045, fills him for 1000 (he receives 100) and drops 45.  `quoteCoinDiff` = 5 with 2 individual fills. -/
+
+def dustS : Order := { id := 0, kind := 2, oid := 0, dir := .sell, price := 100000000000000000, amount := 1000,
+                       offer := 1000, opn := 1000, paid := 0, received := 0, batchId := 0 }
+def dustSm (i : Nat) : Order := { dustS with id := i, amount := 10, offer := 10, opn := 10 }
+def dustB : Order := { id := 6, kind := 2, oid := 0, dir := .buy, price := 200000000000000000, amount := 1045,
+                       offer := 209, opn := 1045, paid := 0, received := 0, batchId := 0 }
+def dustOrders : List Order := [dustS, dustSm 1, dustSm 2, dustSm 3, dustSm 4, dustSm 5, dustB]
+
+theorem dust_wf : ∀ o ∈ dustOrders, Wf o := by
+  intro o ho
+  simp only [dustOrders, List.mem_cons, List.not_mem_nil, or_false] at ho
+  rcases ho with rfl | rfl | rfl | rfl | rfl | rfl | rfl <;> exact ⟨by decide, by decide, by decide, by decide, by decide⟩
+
+/-- **`dust < #fills` is NOT true of the code as it is** (only of results that conserve base coin): on the witness `Match`
+returns `quoteCoinDiff = 5` after 2 individual fills; 45 base coin were dropped (D2), worth 4.5 quote units, which the buyer
+paid and nobody received.  The strongest true form (`quote_dust_bounds_match`) holds on the witness. -/
+theorem quote_dust_counterexample :
+    ∃ b', matchBook (newBook dustOrders) 90000000000000000 = .ok b' 100000000000000000 5 ∧
+      fillCount (newBook dustOrders).orders b'.orders = 2 ∧ baseLost (newBook dustOrders).orders b'.orders = 45 ∧
+      monDustBelowFills (newBook dustOrders).orders b'.orders 5 = false ∧
+      monQuoteDustAt (newBook dustOrders).orders b'.orders 5 (priceLo (newBook dustOrders).orders)
+        (priceHi (newBook dustOrders).orders) = true ∧
+      matchLossless (newBook dustOrders) 90000000000000000 = false := by
+  refine ⟨⟨[⟨200000000000000000, [{ dustB with opn := 0, paid := 105, received := 1045, fills := 1 }]⟩],
+           [⟨100000000000000000, [{ dustS with opn := 0, paid := 1000, received := 100, fills := 1 },
+              dustSm 1, dustSm 2, dustSm 3, dustSm 4, dustSm 5]⟩]⟩, ?_, ?_, ?_, ?_, ?_, ?_⟩ <;> decide
+
+/-- non-vacuity of `quote_dust_bounds_match`: its hypotheses hold on the witness (and on `exOrders`, where nothing is lost) -/
+example : (∀ o ∈ dustOrders, Wf o) ∧ (dustOrders.map (·.id)).Nodup ∧
+    (exOrders.map (·.id)).Nodup ∧ matchLossless (newBook exOrders) 1000000000000000000 = true :=
+  ⟨dust_wf, by decide, by decide, by decide⟩
+
+/-- non-vacuity of `quote_dust_bounds_single`: the D2 single-price book (three user orders of one batch) really matches at 0.0001 -/
+example : d2Orders.Nodup ∧ (match matchAtSinglePrice (newBook d2Orders) 100000000000000 with | .ok _ _ => true | _ => false) = true :=
+  ⟨by decide, by decide⟩
 
 /-! ## FindMatchPrice (the price of a pair's first batch) — modelled, no longer an input
 
